@@ -1,17 +1,54 @@
-(* SearchFacts.v - PackedState::check_intersection AS A WHOLE, translated from the source text on this run
-   (gen_check_intersection: the pre-check, the shell count, the in-cell pair loops with enumerate / skip and the
-   image loops, as nested existsb), is the hand-written model's check_intersection. *)
-From Coq Require Import ZArith NArith List Bool Lia.
-From PV Require Import Num model.Geom model.Iter gen.GenFns.
+(* SrcState.v - src/state/packed.rs and src/state/potential.rs as translated from the source on this run are the model's:
+   check_intersection and both score functions as wholes, the position pipelines, the order on states. *)
+From Coq Require Import ZArith NArith String List Bool Lia.
+From PV Require Import Num model.Geom model.Optimiser model.Svg model.Pipeline model.Iter gen.GenFns proofs.ListLemmas.
 Import ListNotations.
 Local Open Scope num_scope.
+From PV Require Import proofs.SrcCell.
 
-Lemma existsb_ext_in {A} (f g : A -> bool) (l : list A) :
-  (forall x, In x l -> f x = g x) -> existsb f l = existsb g l.
-Proof.
-  induction l as [|x l IH]; intros H; [reflexivity|]. cbn [existsb].
-  rewrite (H x (or_introl eq_refl)), IH; [reflexivity|]. intros y Hy. apply H. now right.
-Qed.
+(* every function of the source this file is about was translated on this run *)
+Theorem state_source_translated :
+  translated_gen_positions = true /\
+  translated_gen_total_shapes = true /\
+  translated_gen_relative_positions = true /\
+  translated_gen_cartesian_positions = true /\
+  translated_gen_lj_total_shapes = true /\
+  translated_gen_lj_relative_positions = true /\
+  translated_gen_lj_cartesian_positions = true /\
+  translated_gen_density_precheck = true /\
+  translated_gen_shells = true /\
+  translated_gen_radius_sq = true /\
+  translated_gen_check_intersection = true /\
+  translated_gen_packed_score = true /\
+  translated_gen_lj_score = true /\
+  translated_gen_lj_final = true.
+Proof. repeat split; reflexivity. Qed.
+
+Section Source.
+  Variable NN : Num.
+  Notation T := (carrier NN).
+  Variable fexp facos : T -> T.
+  Variable fpow : T -> T -> T.
+  Variable powi : T -> Z -> T.
+
+  (* ---- src/state/packed.rs, src/state/potential.rs *)
+  Theorem density_precheck_is_source : forall st, gen_density_precheck NN st = density_precheck NN st.
+  Proof. reflexivity. Qed.
+
+  Theorem shells_is_source : forall st, gen_shells NN st = shells_of NN st.
+  Proof. reflexivity. Qed.
+
+  Theorem radius_sq_is_source : forall st, gen_radius_sq NN st = sq NN (p_radius NN st * n2).
+  Proof. reflexivity. Qed.
+
+  Theorem packed_score_is_source : forall st, gen_packed_score NN st = packed_score NN st.
+  Proof. reflexivity. Qed.
+
+  Theorem lj_final_is_source : forall st,
+    gen_lj_final NN st (lj_sum NN powi st) = lj_score NN powi st.
+  Proof. reflexivity. Qed.
+
+End Source.
 
 (* for (i, x) in l.enumerate() { for y in l.skip(i + 1) { if f x y { return true } } }  visits every unordered pair once:
    it is the search over the tails of l *)
@@ -62,20 +99,6 @@ Proof.
     destruct (norm2 NN (x1 - x2) (y1 - y2) <=? sq NN (p_radius NN st * n2)); reflexivity.
 Qed.
 
-(* ------------------------------------------------------------------ *)
-(* PotentialState::score as a whole                                    *)
-
-Lemma fold_left_ext_in {A B} (f g : B -> A -> B) (l : list A) (b : B) :
-  (forall acc x, In x l -> f acc x = g acc x) -> fold_left f l b = fold_left g l b.
-Proof.
-  revert b. induction l as [|x l IH]; intros b H; [reflexivity|]. cbn [fold_left].
-  rewrite (H b x (or_introl eq_refl)). apply IH. intros acc y Hy. apply H. now right.
-Qed.
-
-Lemma fold_left_map {A B C} (f : C -> B -> C) (g : A -> B) (l : list A) (c : C) :
-  fold_left f (map g l) c = fold_left (fun acc x => f acc (g x)) l c.
-Proof. revert c. induction l as [|x l IH]; intros c; [reflexivity|]. cbn [map fold_left]. apply IH. Qed.
-
 (* the accumulating double loop over enumerate / skip adds the terms of the model's loop over tails, in the same order *)
 Lemma sum_enumerate_skip {A} (NN : Num) (f : A -> A -> carrier NN) (pre suf : list A) (acc : carrier NN) :
   fold_left (fun sum '(i, x) => fold_left (fun sum y => sum + f x y) (skipn (S i) (pre ++ suf)) sum)
@@ -109,104 +132,6 @@ Proof.
   apply fold_left_ext_in. intros acc2 pos _.
   rewrite fold_left_map. reflexivity.
 Qed.
-
-(* ------------------------------------------------------------------ *)
-(* Cell2::periodic_images and OccupiedSite::positions as iterator pipelines                              *)
-
-Lemma filter_ext_in {A} (f g : A -> bool) (l : list A) :
-  (forall x, In x l -> f x = g x) -> filter f l = filter g l.
-Proof.
-  induction l as [|x l IH]; intros H; [reflexivity|]. cbn [filter].
-  rewrite (H x (or_introl eq_refl)), IH; [reflexivity|]. intros y Hy. apply H. now right.
-Qed.
-
-Theorem periodic_images_is_source : forall (NN : Num) (c : cell NN) (t : tf NN) (k : Z) (zero : bool),
-  gen_periodic_images NN c t k zero = periodic_images NN c t k zero.
-Proof.
-  intros NN c t k zero. unfold gen_periodic_images, periodic_images, shell_indices.
-  rewrite (filter_ext_in _ (fun xy => negb (andb (negb zero) (andb (fst xy =? 0)%Z (snd xy =? 0)%Z)))).
-  - apply map_ext. intros [x y]. reflexivity.
-  - intros [x y] _. cbn [fst snd]. now rewrite andb_assoc.
-Qed.
-
-Theorem positions_is_source : forall (NN : Num) (syms : list (tf NN)) (s : site NN),
-  gen_positions NN syms s = positions NN syms s.
-Proof. intros NN syms s. unfold gen_positions, positions. cbv zeta. now rewrite map_map. Qed.
-
-(* ---- the shape-level overlap tests: iproduct!(self, other).any(|(s, o)| s.intersects(o)) is the model's nested search *)
-Lemma existsb_flat_map {A B} (f : B -> bool) (g : A -> list B) (l : list A) :
-  existsb f (flat_map g l) = existsb (fun x => existsb f (g x)) l.
-Proof.
-  induction l as [|x l IH]; [reflexivity|]. cbn [flat_map existsb]. rewrite existsb_app, IH. reflexivity.
-Qed.
-
-Lemma existsb_map {A B} (f : B -> bool) (h : A -> B) (l : list A) :
-  existsb f (map h l) = existsb (fun x => f (h x)) l.
-Proof. induction l as [|x l IH]; [reflexivity|]. cbn [map existsb]. rewrite IH. reflexivity. Qed.
-
-From PV Require Import proofs.SourceFacts.
-Section ShapeSearch.
-  Variable NN : Num.
-
-  Theorem shape_intersects_is_source : forall (l m : list (seg NN)) (a b : list (disc NN)),
-    gen_poly_intersects NN l m = shape_intersects NN (Poly l) (Poly m)
-    /\ gen_mol_intersects NN a b = shape_intersects NN (Mol a) (Mol b).
-  Proof.
-    intros l m a b. unfold gen_poly_intersects, gen_mol_intersects. cbn [shape_intersects].
-    rewrite !existsb_flat_map. split.
-    - apply existsb_ext_in. intros s _. rewrite existsb_map. apply existsb_ext_in. intros o _. apply seg_intersects_is_source.
-    - apply existsb_ext_in. intros s _. rewrite existsb_map. apply existsb_ext_in. intros o _. apply disc_intersects_is_source.
-  Qed.
-End ShapeSearch.
-
-(* ---- Shape::enclosing_radius as a whole: .map(term).fold(f64::MIN, f64::max) *)
-Section RadiusSource.
-  Variable NN : Num.
-  Theorem enclosing_radius_is_source : forall fmin_ (l : list (seg NN)) (m : list (disc NN)),
-    gen_poly_radius NN fmin_ l = poly_radius NN fmin_ l /\ gen_mol_radius NN fmin_ m = mol_radius NN fmin_ m.
-  Proof.
-    intros fmin_ l m. unfold gen_poly_radius, gen_mol_radius, poly_radius, mol_radius. split.
-    - revert fmin_. induction l as [|x l IH]; intros a; [reflexivity|]. cbn [map fold_left]. apply IH.
-    - revert fmin_. induction m as [|x m IH]; intros a; [reflexivity|]. cbn [map fold_left]. apply IH.
-  Qed.
-End RadiusSource.
-
-(* ---- Shape::area as a whole: LineShape (sum over the edges) and MolecularShape2 (discs minus the pairwise lenses over
-   itertools' tuple_combinations, which visits the pairs the model's loop over tails visits, in the same order) *)
-Lemma fold_left_flat_map {A B C} (f : C -> B -> C) (g : A -> list B) (l : list A) (c : C) :
-  fold_left f (flat_map g l) c = fold_left (fun acc x => fold_left f (g x) acc) l c.
-Proof.
-  revert c. induction l as [|x l IH]; intros c; [reflexivity|]. cbn [flat_map fold_left]. rewrite fold_left_app. apply IH.
-Qed.
-
-Section AreaSource.
-  Variable NN : Num.
-  Notation T := (carrier NN).
-  Variable fsin facos : T -> T.
-  Variable pi_ : T.
-
-  Theorem poly_area_whole_is_source : forall (l : list (seg NN)),
-    gen_poly_area NN fsin pi_ l = poly_area NN (fsin ((n2 * pi_) / nofZ (Z.of_nat (List.length l)))) l.
-  Proof.
-    intros l. unfold gen_poly_area, poly_area. cbv zeta. rewrite fold_left_map. reflexivity.
-  Qed.
-
-  Theorem mol_area_whole_is_source : forall (l : list (disc NN)),
-    gen_mol_area NN facos pi_ l = mol_area NN facos pi_ l.
-  Proof.
-    intros l. unfold gen_mol_area, mol_area. cbv zeta. rewrite !fold_left_map, fold_left_flat_map.
-    f_equal. apply fold_left_ext_in. intros acc xr _. rewrite fold_left_map. reflexivity.
-  Qed.
-
-  (* LJShape2::energy as a whole: the sum over iproduct!(self, other) of the pair energies, in that order *)
-  Variable powi : T -> Z -> T.
-  Theorem ljshape_energy_is_source : forall (a b : list (lj NN)),
-    gen_ljshape_energy NN powi a b = ljshape_energy NN powi a b.
-  Proof.
-    intros a b. unfold gen_ljshape_energy, ljshape_energy. rewrite fold_left_map.
-    apply fold_left_ext_in. intros acc [s o] _. reflexivity.
-  Qed.
-End AreaSource.
 
 (* ---- PackedState::total_shapes, relative_positions, cartesian_positions as wholes *)
 Section StatePipelines.
